@@ -18,8 +18,8 @@ import (
 // also executed by a child process that has done nothing else.
 
 type freshReq struct {
-	Ops []Op            `json:"ops"`
-	LL  []*LLValidator  `json:"ll,omitempty"`
+	Ops []Op           `json:"ops"`
+	LL  []*LLValidator `json:"ll,omitempty"`
 }
 
 // freshOutcomes runs every op alone-in-a-fresh-process (one child process per call, ops executed in order, each with
